@@ -346,7 +346,8 @@ func shortCallee(n string) string {
 
 func findC08Exception(fn, construct string) *c08Exception {
 	for i := range c08Exceptions {
-		if c08Exceptions[i].fn == fn && c08Exceptions[i].construct == construct {
+		if c08Exceptions[i].fn == fn && (c08Exceptions[i].construct == construct ||
+			strings.HasSuffix(c08Exceptions[i].construct, "*") && strings.HasPrefix(construct, strings.TrimSuffix(c08Exceptions[i].construct, "*"))) {
 			return &c08Exceptions[i]
 		}
 	}
